@@ -122,7 +122,7 @@ func cmdCheck(args []string) {
 		}
 	}
 	start := time.Now()
-	timeout := 20
+	timeout := 40
 	if *tier == "thorough" {
 		timeout = 120
 	}
